@@ -86,24 +86,49 @@ def _all_inner(fi):
 
 
 def _arms(repo, m, func_node) -> list[tuple[str, list[str], ast.AST]]:
-    """Ordered (kind, [type names], body-node) of the top-level isinstance chain in a function."""
-    top = [n for n in func_node.body if isinstance(n, ast.If)]
-    for n in func_node.body:
-        if isinstance(n, ast.For):
-            top += [x for x in n.body if isinstance(x, ast.If)]
+    """Ordered (kind, [type names], arm) of the isinstance dispatch of a function: an if/elif chain, or the same thing spelled
+    as consecutive `if ...: ...; return` statements (every arm leaves the function, the rest of the block is the else arm).
+    The dispatch may sit inside the function's loop or under an enclosing `if`."""
+    from ..canon import _terminates
+    from ..dispatch import Arm
+
+    best: list = []
+    for blk_owner in ast.walk(func_node):
+        if isinstance(blk_owner, (ast.FunctionDef, ast.AsyncFunctionDef)) and blk_owner is not func_node:
+            continue
+        for fld in ("body", "orelse"):
+            block = getattr(blk_owner, fld, None)
+            if not (isinstance(block, list) and block and isinstance(block[0], ast.stmt)):
+                continue
+            for i, st in enumerate(block):
+                if not isinstance(st, ast.If):
+                    continue
+                chain = extract_chain(repo, m, st)
+                if not chain or chain[0].kind != "isinstance":
+                    continue  # a dispatch starts with a type test (a preceding membership guard is not an arm of it)
+                j = i
+                # sequential form: keep absorbing following `if`s while everything so far leaves the block
+                while chain and chain[-1].kind != "else" and all(_terminates(a.body) for a in chain) and j + 1 < len(block):
+                    nxt = block[j + 1]
+                    if isinstance(nxt, ast.If):
+                        chain = chain + extract_chain(repo, m, nxt)
+                        j += 1
+                    else:
+                        rest = block[j + 1 :]
+                        chain = chain + [Arm("else", chain[-1].subject, [], [], rest, None, rest[0])]
+                        break
+                n_inst = sum(1 for a in chain if a.kind == "isinstance")
+                if n_inst > sum(1 for a in best if a.kind == "isinstance"):
+                    best = chain
     out = []
-    for t in top:
-        chain = extract_chain(repo, m, t)
-        if any(a.kind == "isinstance" for a in chain):
-            for a in chain:
-                if a.kind == "isinstance":
-                    names = [ast.unparse(x).split(".")[-1] for x in (a.test.args[1].elts if isinstance(a.test.args[1], ast.Tuple) else [a.test.args[1]])]
-                    out.append(("isinstance", names, a))
-                elif a.kind == "else":
-                    out.append(("else", [], a))
-                else:
-                    out.append(("other", [ast.unparse(a.test)], a))
-            break
+    for a in best:
+        if a.kind == "isinstance":
+            names = [ast.unparse(x).split(".")[-1] for x in (a.test.args[1].elts if isinstance(a.test.args[1], ast.Tuple) else [a.test.args[1]])]
+            out.append(("isinstance", names, a))
+        elif a.kind == "else":
+            out.append(("else", [], a))
+        else:
+            out.append(("other", [ast.unparse(a.test)], a))
     return out
 
 
@@ -120,10 +145,31 @@ def kind_tables(ctx, rep, rule: str) -> None:
     rk = [sorted(n) for k, n, _ in ra if k == "isinstance"]
     rep.ob(rule, "module-kind-tables-agree", wk == rk == [sorted(x) for x in want], save.loc(), f"writer arms {wk}; reader arms {rk}; both must handle Tensor, OptimizerModule, dict, (list, tuple, set) in an order where no earlier arm shadows a later one", sample=True)
     # remaining arm governed by store_non_tensors in both
-    w_rest = [a for k, n, a in wa if k == "other"]
-    r_rest = [a for k, n, a in ra if k == "other"]
-    ok = len(w_rest) == 1 and len(r_rest) == 1 and _norm(w_rest[0].test) == "store_non_tensors" and _norm(r_rest[0].test) == "store_non_tensors"
-    rep.ob(rule, "non-tensor-arm-governed-by-flag", ok, save.loc(), "non-tensor leaves are stored / loaded only under store_non_tensors in both directions")
+    # walked for a value of none of the container kinds, with the flag off and on (any spelling of the dispatch):
+    # writer stores the value / reader replaces the old value only with the flag on
+    def residual(fi, flag: bool):
+        blocks = [fi.node.body] + [n.body for n in fi.node.body if isinstance(n, ast.For)]
+        block = next((b for b in reversed(blocks) if any(isinstance(st, ast.If) and any(a.startswith("isinstance(") for a in A.test_atoms(st.test)) for st in b)), None)
+        if block is None:
+            raise AnalysisError(f"{fi.qual}: isinstance dispatch not found")
+        atoms = set()
+        for n in ast.walk(ast.Module(body=block, type_ignores=[])):
+            if isinstance(n, ast.If):
+                atoms |= A.test_atoms(n.test)
+        val = {a: False for a in atoms if a.startswith("isinstance(")}
+        val |= {a: flag for a in atoms if a == "store_non_tensors"}
+        val |= {a: True for a in atoms if a.startswith("type(") and " is type(" in a}
+        return A.walk_path(block, val)
+
+    facts = {}
+    for flag in (False, True):
+        ws, wend = residual(save, flag)
+        rs, rend = residual(load, flag)
+        w_stores = any(isinstance(st, ast.Assign) and isinstance(st.targets[0], ast.Subscript) for st in ws)
+        r_replaces = any("deepcopy(" in _norm(st) for st in rs)
+        facts[flag] = (w_stores, r_replaces, wend, rend)
+    ok = facts[False][:2] == (False, False) and facts[True][:2] == (True, True) and not any(str(e).startswith("unknown") for f in facts.values() for e in f[2:])
+    rep.ob(rule, "non-tensor-arm-governed-by-flag", ok, save.loc(), f"a value of none of the container kinds: flag off -> writer stores {facts[False][0]}, reader replaces {facts[False][1]}; flag on -> writer stores {facts[True][0]}, reader replaces {facts[True][1]} (documented: only under store_non_tensors, in both directions)")
     # no shadowing: OptimizerModule is not a Tensor / dict / sequence subclass
     shadow = [b for k in repo.mro(om) for b in k.base_exprs if b.split(".")[-1] in ("dict", "list", "tuple", "set", "Tensor", "Module")]
     rep.ob(rule, "no-arm-shadowing", not shadow, om.module.relpath, f"OptimizerModule must not derive from a type handled by an earlier arm (bases found: {shadow})")
@@ -155,7 +201,13 @@ def in_place_loading(ctx, rep, rule: str) -> None:
         # through detach(): an in-place copy into a leaf tensor that requires grad raises outside no_grad, and copying from a
         # tensor that requires grad would otherwise turn the old tensor into a non-leaf with autograd history
         ok = len(copies) == 1 and _norm(copies[0].func.value) == f"{old}.detach()" and _norm(copies[0].args[0]) == new and not rebinds
-    rets = [n for n in A.walk_no_nested(load.node) if isinstance(n, ast.Return)]
+    # what the tensor arm hands back is the old tensor object: its own returns, and — when it falls through — the function's
+    # trailing return (with the old name not re-bound by the arm)
+    from ..canon import _terminates
+
+    arm_rets = [n for s_ in (t_arm.body if t_arm is not None else []) for n in ast.walk(s_) if isinstance(n, ast.Return)]
+    tail_rets = [n for n in load.node.body if isinstance(n, ast.Return)]
+    rets = arm_rets + ([] if (t_arm is not None and _terminates(t_arm.body)) else tail_rets)
     ret_old = all(isinstance(r.value, ast.Name) and r.value.id == old for r in rets) and bool(rets)
     rep.ob(rule, "tensor-arm-copies-into-old-tensor", ok and ret_old, load.loc(), f"tensor arm performs `{old}.detach().copy_({new})` without rebinding `{old}`, and every return yields `{old}` (tensor objects are never replaced, so the optimizer's lists stay aliased): copy={ok}, returns-old={ret_old}", sample=True)
     up = repo.func(f"{CKPT_MOD}:update_param_state_dict_object")
@@ -178,7 +230,7 @@ def in_place_loading(ctx, rep, rule: str) -> None:
                 idx = comp.target.elts[0].id
                 rec = [c for c in ast.walk(g.elt) if isinstance(c, ast.Call) and isinstance(c.func, ast.Name) and c.func.id == load.name]
                 r_seq = bool(rec) and all(_norm(A.arg_of(c, load, new)) == f"{new}[{idx}]" for c in rec)
-        rebuilt = any(isinstance(n, ast.Assign) and _norm(n.value).startswith(f"type({old})(") for s in s_arm.body for n in ast.walk(s))
+        rebuilt = any(isinstance(n, (ast.Assign, ast.Return)) and n.value is not None and _norm(n.value).startswith(f"type({old})(") for s in s_arm.body for n in ast.walk(s))
         r_seq = r_seq and rebuilt
     if d_arm is not None:
         comps = [n for s in d_arm.body for n in ast.walk(s) if isinstance(n, ast.DictComp)]
@@ -228,13 +280,18 @@ def leafless_not_required(ctx, rep, rule: str) -> None:
     for r in raises:
         rn = cfg.node_of(r)
         conds = cfg.branch_conditions(rn)
-        leaf_tests = [t for t, lab in conds if t.kind == "test" and "flatten(" in _norm(t.ast.test) and "extract_state_dict_content" in _norm(t.ast.test)]
-        ok = len(leaf_tests) >= 1
-        if ok:
-            t = leaf_tests[0].ast
-            skips = any(isinstance(s, ast.Continue) for s in t.body)
-            negated = isinstance(t.test, ast.UnaryOp) and isinstance(t.test.op, ast.Not)
-            ok = skips and negated and f"{{{kvar}: {vvar}}}" in _norm(t.test)
+        # the raise is reached only along the edge on which `flatten(extract_state_dict_content({k: v}))` is non-empty:
+        # the F edge of `if not flatten(...)` or the T edge of `if flatten(...)` — either spelling
+        ok = False
+        for t, lab in conds:
+            if t.kind != "test":
+                continue
+            test = t.ast.test
+            neg = isinstance(test, ast.UnaryOp) and isinstance(test.op, ast.Not)
+            core = test.operand if neg else test
+            txt = _norm(core)
+            if txt.startswith("flatten(") and "extract_state_dict_content" in txt and f"{{{kvar}: {vvar}}}" in txt and lab == ("F" if neg else "T"):
+                ok = True
         rep.ob(rule, "missing-key-raise-only-for-values-with-leaves", ok, up.loc(r), "the KeyError for a key missing from the loaded state must be control-dependent on the current value contributing at least one flattened entry (`if not flatten(extract_state_dict_content({k: v})): continue`): flatten() drops leaf-less sub-dictionaries, so a block without Kronecker factors could otherwise not load its own checkpoint", sample=True)
     fl = repo.func(f"{CKPT_MOD}:flatten")
     fs = [f for fi in A.local_callees(repo, fl) for f in A.folds(repo, fi.module, fi.node)]
